@@ -140,6 +140,25 @@ fn check_point(ps: &gen::PointSpec, st: &mut Stats) -> Result<(), String> {
             p.lon, p.lat, id, c.face, c.res, best.0
         ));
     }
+    // the same point with its longitude written k whole turns away (k derived from the case, -3..3): the face
+    // chosen must not depend on the spelling of the longitude
+    let k = ((p.lon.to_bits() >> 5) % 7) as i64 - 3;
+    if k != 0 {
+        let lon_k = p.lon + 360.0 * k as f64;
+        let got_k = find_nearest_origin(a5::core::coordinate_transforms::from_lon_lat(api::lonlat(lon_k, p.lat))).id as usize;
+        if !allowed.contains(&got_k) {
+            return Err(format!(
+                "find_nearest_origin(({}, {})) = face {} (the same point as longitude {}), but face {} is nearer by great-circle distance ({:.3e} rad vs {:.3e} rad)",
+                lon_k, p.lat, got_k, p.lon, best.0, ang(v, fr.centres[got_k]), ang(v, fr.centres[best.0])
+            ));
+        }
+        let idk = a5::lonlat_to_cell(api::lonlat(lon_k, p.lat), 0).map_err(|e| format!("lonlat_to_cell(({}, {}), 0) failed: {}", lon_k, p.lat, e))?;
+        let ck = codec::decode(idk).ok_or_else(|| format!("lonlat_to_cell(.., 0) returned non-canonical {:#x}", idk))?;
+        if ck.res != 0 || !allowed.contains(&(ck.face as usize)) {
+            return Err(format!("lonlat_to_cell(({}, {}), 0) = {:#x} (face {}), nearest face is {} (same point as longitude {})", lon_k, p.lat, idk, ck.face, best.0, p.lon));
+        }
+        st.hit(&format!("longitude-written-{:+}-turns-away", k));
+    }
     // resolution 1 refines resolution 0 exactly (quintants nest in their face): away from a tie the
     // quintant found for the point belongs to the face found for it
     let id1 = a5::lonlat_to_cell(api::lonlat(p.lon, p.lat), 1).map_err(|e| format!("lonlat_to_cell(({}, {}), 1) failed: {}", p.lon, p.lat, e))?;
